@@ -442,10 +442,18 @@ def fmt(ctx):
     ctx.ob('FORMAT', LSM + '::load', 'a model without the key is refused', not [q for q in paths if q.done == 'return'], node=lfn, key='load missing')
 
 
+def _ec_normalized(ctx):
+    """ElasticConstants.model(crystal_system=...) stores the tensor normalised as that system: a tensor that already has the system's form (all its independent constants,
+    C16 of the tetragonal 4/m class included) must come through unchanged -- decided by the normalisation rule of the property that owns it"""
+    from .c11 import normalized
+    normalized(ctx)
+
+
 def run(ctx):
     ctx.explanation = ('C10: each writer is evaluated on symbolic values and its reader on the writer\'s output (the real DataModelDict container holding symbols), and the composition is '
                        'compared with the identity: unit models for all ranks incl. non-contiguous views, Box (with cache reset on reading), Atoms, System (scaled storage, partial masses), '
                        'ElasticConstants; format routing of dump/load. Not decided: the third-party JSON/XML encoders and dtypes after the text round trip.')
     # reading a system model goes through System.__init__ with the symbols and masses of the file: lists longer than the atom types in use are kept in full
     from .c06 import construct_lists
-    ctx.run_rules([uc_model, box_model, atoms_model, system_model, ec_model, fmt, lambda c: construct_lists(c, 'SYSTEM-MODEL')])
+    ctx.run_rules([uc_model, box_model, atoms_model, system_model, ec_model, fmt, lambda c: construct_lists(c, 'SYSTEM-MODEL'), _ec_normalized,
+                   lambda c: __import__('amverif.lints', fromlist=['x']).fresh_results(c, 'UC-MODEL', UC, floor=9, what='a value computed from the working units in force at the time of the call (a model is written under one set of working units and read under another)')])
